@@ -193,8 +193,29 @@ class Tap:
                     r = dict.__contains__(self, k)
                     tap.tl.decided = True
                     tap.tl.unrouted = not r
+                    tap.tl.pending_put = r
                     tap.log.append(("h", tap.dispatcher(), getattr(tap.tl, "serial", None)))
                     return r
+
+            def __getitem__(self, k):
+                with tap.lock:
+                    if getattr(tap.tl, "pending_put", False):
+                        # second statement of the routing branch: `self._response_queues[system].put_nowait(message)` (or KeyError)
+                        tap.tl.pending_put = False
+                        tap.log.append(("w", tap.dispatcher(), getattr(tap.tl, "serial", None)))
+                    return dict.__getitem__(self, k)
+
+            def get(self, k, default=None):
+                # reply-only routing (proposal C06-primary-system-bytes): test and lookup are one dict operation
+                with tap.lock:
+                    r = dict.get(self, k, None)
+                    tap.tl.decided = True
+                    tap.tl.unrouted = r is None
+                    d, ser = tap.dispatcher(), getattr(tap.tl, "serial", None)
+                    tap.log.append(("h", d, ser))
+                    if r is not None:
+                        tap.log.append(("w", d, ser))
+                    return default if r is None else r
 
             def __delitem__(self, k):
                 with tap.lock:
@@ -325,7 +346,7 @@ class Tap:
             elif k == "x":
                 if e[3] not in dropped:
                     out.append(f"x{e[1]}:{e[2]}")
-            elif k in ("p", "h", "e"):
+            elif k in ("p", "h", "w", "e"):
                 if e[2] not in dropped:
                     out.append(f"{k}{e[1]}")
         return out, None
@@ -390,8 +411,15 @@ class Rig:
         return False
 
 
+REPLY_ONLY = False  # set by the probe: the endpoint routes only replies (even function) to waiting callers
+
+
+def aflag(atomic) -> str:
+    return f"{int(atomic)}{int(REPLY_ONLY)}"
+
+
 def model_run(drv, atomic, patched, c0, n, toks):
-    line = f"txn run {int(atomic)} {int(patched)} {c0} {n} " + (",".join(toks) if toks else "-")
+    line = f"txn run {aflag(atomic)} {int(patched)} {c0} {n} " + (",".join(toks) if toks else "-")
     return line, hlib.strip_branch(drv.run([line])[0])
 
 
@@ -475,7 +503,7 @@ def part_counter(cx: Ctx):
             # a thread's `+= 1` and wrap test together (always true away from the wrap)
             if c0 > 2 ** 32 - 10:
                 return
-        lines.append(f"txn run {int(cx.atomic)} 0 {c0} {k} " + ",".join(toks))
+        lines.append(f"txn run {aflag(cx.atomic)} 0 {c0} {k} " + ",".join(toks))
         expect.append(";".join(str(i) for i in ids))
         cases.append(case)
 
@@ -579,7 +607,7 @@ def part_request_schedules(cx: Ctx):
             else:
                 ren.append(t)
         want = sorted(f"{ids[i]}/{show_result(out.results.get(i))}" for i in range(k))
-        pending.append((case, f"txn run {int(cx.atomic)} {int(cx.patched)} {c0} {k} " + ",".join(["U"] + ren), want))
+        pending.append((case, f"txn run {aflag(cx.atomic)} {int(cx.patched)} {c0} {k} " + ",".join(["U"] + ren), want))
         return True
 
     total = 0
@@ -892,6 +920,116 @@ def part_unsolicited_and_reconnect(cx: Ctx):
             res.violate("c06-unsolicited-order", "; ".join(problems), {"part": "unsolicited", "events": ev}, want, ev)
 
 
+# ---------------------------------------------------------------------------------------------- (v) an inbound primary that re-uses system bytes
+KNOWN_PRIMARY = "c06-primary-system-bytes"
+ROUTE_TEST = "if message.header.system in self._response_queues:"
+ROUTE_PUT = "self._response_queues[message.header.system].put_nowait(message)"
+
+
+def part_primary_collision(cx: Ctx):
+    """the peer sends a PRIMARY (odd function) whose system bytes equal those of a local open transaction (E37: system bytes are only unique
+    per direction).  Property: it is an 'other inbound data message' -> handed to the application exactly once; the caller gets its own
+    reply or a timeout - never this message.  (a) while the request is outstanding; (b) baton schedule test / _remove_queue / put."""
+    res = cx.res
+    # ---- (a) no race
+    for variant in ("outstanding", "then-reply"):
+        rig = Rig(t3=0.6)
+        if not rig.connect():
+            return
+        c0 = rig.p._system_counter
+        out = {}
+        t = threading.Thread(target=lambda: out.update(r=rig.p.send_and_waitfor_response(Fn(1, 3))), daemon=True)
+        t.start()
+        limit = time.time() + 2
+        while time.time() < limit and not rig.c.data_systems():
+            time.sleep(0.002)
+        wire = rig.c.data_systems()
+        if not wire:
+            res.violate("c06-request-hang", "request never reached the wire", {"part": "primary"})
+            continue
+        k = wire[0][0]
+        rig.feed(data_msg(k, 6, 11, w=True))  # S6F11 W from the peer, same system bytes
+        time.sleep(0.05)
+        if variant == "then-reply":
+            rig.feed(data_msg(k, 1, 4))  # the real reply S1F4
+        t.join(2.0)
+        rig.quiesce(limit=1.0)
+        with rig.ev_lock:
+            starts = [(s_, tg) for (kk, s_, tg) in rig.events if kk == "start"]
+        r = out.get("r")
+        case = {"part": "primary", "variant": variant, "system": k}
+        res.count(("primary", variant), sample=dict(case, caller_got=show_result(r), application_got=starts))
+        problems = []
+        if r is not None and r.header.function % 2 == 1:
+            problems.append(f"the caller received the peer's primary S{r.header.stream}F{r.header.function} as the reply to its S1F3")
+        if variant == "then-reply" and not problems and (r is None or r.header.function != 4):
+            problems.append("the caller did not receive its own reply S1F4")
+        if starts.count((k, 6 * 256 + 11)) != 1:
+            problems.append("the peer's primary S6F11 was not handed to the application exactly once")
+        if problems:
+            res.violate(KNOWN_PRIMARY, "; ".join(problems), case, {"caller": "S1F4 / None", "application": [(k, 1547)]},
+                        {"caller": show_result(r), "application": starts})
+        toks, err = rig.tap.tokens(cx.atomic)
+        if cx.drv.available and toks is not None:
+            line, ans = model_run(cx.drv, cx.atomic, cx.patched, c0, max(rig.tap.n_callers, 1), toks)
+            res.traces_validated += 1
+            m = parse_model(ans)
+            want = (show_result(r), [f"{a}:{b}" for (a, b) in starts])
+            got = None if m is None else (m["callers"][0][2] if m["callers"] else None, m["delivered"])
+            if got != want:
+                res.disagree("primary with re-used system bytes vs Model.Txn", {"case": case, "line": line[:800]}, ans[:400], want)
+    # ---- (b) the window between the test and the put, on the real functions, under the line schedule test / _remove_queue / put
+    fr = secsgem.hsms.HsmsProtocol._on_connection_message_received
+    fs = secsgem.common.Protocol.send_and_waitfor_response
+    try:
+        rp = sched.points_by_text(fr, [ROUTE_TEST, ROUTE_PUT])
+    except sched.TieBroken as exc:
+        if "self._response_queues.get(message.header.system)" in "".join(sched.lines_of(fr).values()):
+            res.notes.append("routing test and lookup are one dict operation (reply-only routing): no window between test and put to schedule")
+        else:
+            res.disagree("sched line mapping", "_on_connection_message_received", [ROUTE_TEST, ROUTE_PUT], str(exc))
+        return
+    try:
+        sp = sched.points_by_text(fs, STEP_LINES, multi=("self._remove_queue(system_id)",))
+    except sched.TieBroken as exc:
+        res.disagree("sched line mapping", "send_and_waitfor_response", "the five step lines", str(exc))
+        return
+    schedules = {"test,remove,put": [1, 1, 1, 1, 0, 1, 0], "remove,test": [1, 1, 1, 1, 1, 0, 0], "test,put,remove": [1, 1, 1, 1, 0, 0, 1]}
+    for name, sch in schedules.items():
+        rig = Rig(t3=0.25)
+        if not rig.connect():
+            return
+        k = 7000001
+        rig.p._system_counter = k - 1
+        baton = sched.Baton({sched.code_of(fr): {rp[ROUTE_TEST][0], rp[ROUTE_PUT][0]}, sched.code_of(fs): {no for v in sp.values() for no in v}},
+                            stall=0.9, deadline=6.0)
+        baton.describe(fr)
+        baton.describe(fs)
+        block = data_msg(k, 6, 11, w=True).blocks[0]
+        out = baton.run([lambda: rig.p._dispatch_block(rig.p, block), lambda: rig.p.send_and_waitfor_response(Fn(1, 3))], sch)
+        rig.quiesce(limit=0.5)
+        with rig.ev_lock:
+            starts = [(s_, tg) for (kk, s_, tg) in rig.events if kk == "start"]
+        case = {"part": "primary", "variant": "window", "schedule_name": name, "schedule": sch,
+                "lines": [f"{tid}:{text[:48]}" for (tid, _f, _n, text) in out.trace]}
+        res.count(("primary-window", name), sample=dict(case, application_got=starts, caller_got=show_result(out.results.get(1))))
+        res.bump("routing_window_schedules", name)
+        if out.hung or out.errors:
+            res.violate("c06-request-hang", "dispatcher or caller did not return under the line schedule", case, None, repr(out.errors or out.hung))
+            continue
+        r = out.results.get(1)
+        problems = []
+        if r is not None:
+            problems.append("the caller received the peer's primary as its reply")
+        if starts.count((k, 6 * 256 + 11)) != 1:
+            problems.append("the peer's primary S6F11 (same system bytes as a request that is timing out) was not handed to the application: "
+                            + ("KeyError between the `in` test and `put_nowait`, swallowed by _dispatch_block" if name == "test,remove,put"
+                               else "put to the reply queue of a caller that had already timed out"))
+        if problems:
+            res.violate(KNOWN_PRIMARY, "; ".join(problems), case, {"application": [(k, 1547)]}, {"caller": show_result(r), "application": starts})
+    res.exhaustive_parts.append("routing window: all 3 orders of {test, put} x {_remove_queue} on the real _on_connection_message_received / send_and_waitfor_response")
+
+
 # ---------------------------------------------------------------------------------------------- static tie: the SECS-I routing branch
 def part_static_tie(cx: Ctx):
     """the harness drives HSMS; the SECS-I endpoint shares Protocol.send_and_waitfor_response and has its own copy of the routing branch:
@@ -908,14 +1046,29 @@ def part_static_tie(cx: Ctx):
                 return [ast.unparse(x) for x in node.body], [ast.unparse(x) for x in node.orelse]
         return None
 
+    def routing_b(fn):
+        tree = ast.parse(textwrap.dedent(inspect.getsource(fn)))
+        for node in ast.walk(tree):
+            if isinstance(node, ast.If) and ast.unparse(node.test) == "response_queue is not None":
+                return [ast.unparse(x) for x in node.body], [ast.unparse(x) for x in node.orelse]
+        return None
+
     want_body = ["self._response_queues[message.header.system].put_nowait(message)"]
     for name, fn, conn in (("SecsIProtocol", secsgem.secsi.SecsIProtocol._on_connection_message_received, "source"),
                            ("HsmsProtocol", secsgem.hsms.HsmsProtocol._on_connection_message_received, "self")):
+        fire = [f"self.events.fire('message_received', {{'connection': {conn}, 'message': message}})"]
         got = routing(fn)
-        want = (want_body, [f"self.events.fire('message_received', {{'connection': {conn}, 'message': message}})"])
+        want = (want_body, fire)
         cx.res.count(("static-tie", name), nontrivial=False)
+        src = inspect.getsource(fn)
+        reply_only = "response_queue = self._response_queues.get(message.header.system) if message.header.function % 2 == 0 else None" in src
+        if reply_only:
+            got, want = routing_b(fn), (["response_queue.put_nowait(message)"], fire)
         if got != want:
-            cx.res.disagree(f"{name}._on_connection_message_received routing branch vs Model.Txn handle step", name, list(want), got)
+            cx.res.disagree(f"{name}._on_connection_message_received routing branch vs Model.Txn handle/put steps", name, list(want), got)
+        if name == "HsmsProtocol":
+            global REPLY_ONLY
+            REPLY_ONLY = reply_only
 
 
 def probe_patched() -> bool:
@@ -968,6 +1121,8 @@ def main():
                 reconnect_scenario(cx, cycles, cuts)
         elif want("reconnect") or want("unsolicited"):
             part_unsolicited_and_reconnect(cx)
+        if want("primary"):
+            part_primary_collision(cx)
         if replay_classes:
             res.violations = [v for v in res.violations if v["class"] in replay_classes]  # "does the recorded failure still fail"
     except Exception as exc:  # noqa: BLE001
